@@ -14,6 +14,12 @@ Streams (model `Lint.lintScript` vs `model.lint_script`, exact list equality of 
                    empty / blank / numeric / very long / non-ASCII names, message fragments) at every name position of a
                    small script: labels, jump targets, variables, function names, callees, parameters, include urls
   lint-names-random  programs of the other generators with their names consistently replaced by hostile spellings
+  lint-unicode-names names over the non-ASCII part of \\w (superscript / circled / other No digits, non-digit numerics, Nd digits of
+                   other scripts, special letters, letters with combining marks) x placement in the name (end, after / before an
+                   ASCII digit, run, middle, start, whole) x name position; hand-built and as source text through parse_script
+  lint-scale       SCALE axis n = 0 .. 300 (thorough: .. 1001) on the number of labels / jumps / redefinitions / pointless statements /
+                   variables / parameters / functions (and so of warnings) of one model, each ending in a tail whose exact-kind
+                   warnings come last; names numbered in ASCII and non-ASCII digit styles
   lint-shipped     every shipped include/*.bare
   lint-nested      jump-level models with function statements nested in function bodies (known finding F19)
   lint-optional-members  every presence combination of the schema's optional members (flag without args, flags present and false,
@@ -443,12 +449,13 @@ def semantic_check(model, w, report, stats):
             report(name, {'model': model, 'warning': w}, 'the warning names something present in the model', 'nothing to edit')
         return
     edited, deletion = ed
-    before = run_model(model, BUDGET)
-    after = run_model(edited, BUDGET)
+    budget = run_budget(model)
+    before = run_model(model, budget)
+    after = run_model(edited, budget)
     stats['runs'] = stats.get('runs', 0) + 2
     if deletion:
         if before['exceeded'] and not after['exceeded']:
-            before = run_model(model, BUDGET * 50)   # the deleted statement alone may have cost the budget
+            before = run_model(model, budget * 50)   # the deleted statement alone may have cost the budget
         if before['exceeded'] and after['exceeded']:
             stats['budget-bound'] = stats.get('budget-bound', 0) + 1
             return
@@ -492,9 +499,11 @@ def unknown_jump_check(model, w, report):
 # all implementation-side oracles for one model
 # ---------------------------------------------------------------------------------------------------------------------
 
-def judge_warnings(model, warnings, report, stats, semantic_cap, only=None):
+def judge_warnings(model, warnings, report, stats, semantic_cap, only=None, spread=False):
     """Exactness + semantic oracles for one warning list that lint produced for (an object equal to) the tree `model`.
-    `only`: restrict the semantic oracles to these warning texts (used for the extra warnings of a representation)."""
+    `only`: restrict the semantic oracles to these warning texts (used for the extra warnings of a representation).
+    `spread`: the (at most semantic_cap) warnings of a kind that go through the semantic oracles are the first, the last and
+    evenly spaced ones between them instead of the first ones (models with hundreds of warnings of one kind)."""
     parsed = parse_warnings(model, warnings)
     nested = has_nested_function(model)
     # exactness of the label / redefinition warnings
@@ -512,8 +521,20 @@ def judge_warnings(model, warnings, report, stats, semantic_cap, only=None):
 
     # semantic justification on the real interpreter
     done = {}
-    for text, w in zip(warnings, parsed):
+    chosen = None
+    if spread:
+        by_kind = {}
+        for pos, w in enumerate(parsed):
+            by_kind.setdefault(w['kind'], []).append(pos)
+        chosen = set()
+        for positions in by_kind.values():
+            m = len(positions)
+            picks = range(m) if m <= semantic_cap else sorted({round(j * (m - 1) / (semantic_cap - 1)) for j in range(semantic_cap)} if semantic_cap > 1 else {m - 1})
+            chosen.update(positions[j] for j in picks)
+    for pos, (text, w) in enumerate(zip(warnings, parsed)):
         if only is not None and text not in only:
+            continue
+        if chosen is not None and pos not in chosen:
             continue
         k = w['kind']
         if k in ('unused-var', 'unused-arg', 'unused-label', 'pointless'):
@@ -527,7 +548,7 @@ def judge_warnings(model, warnings, report, stats, semantic_cap, only=None):
     return parsed, nested
 
 
-def check_model(model, report, stats, semantic_cap=8, reprs=()):
+def check_model(model, report, stats, semantic_cap=8, reprs=(), spread=False):
     """Runs every oracle on the real implementation. -> the warning list (or {'error': ...}).
 
     `model` is linted as the object it is; `reprs` names further host representations of the SAME model value (REPRS: shared
@@ -548,9 +569,9 @@ def check_model(model, report, stats, semantic_cap=8, reprs=()):
         report('lint-impure', {'model': snapshot}, warnings, again)
         return warnings
 
-    parsed, nested = judge_warnings(model, warnings, report, stats, semantic_cap)
+    parsed, nested = judge_warnings(model, warnings, report, stats, semantic_cap, spread=spread)
     # a run that raises 'Unknown jump label' names a reported label
-    base = run_model(model, BUDGET)
+    base = run_model(model, run_budget(model))
     stats['runs'] = stats.get('runs', 0) + 1
     if base['unknown_jump'] is not None:
         stats['unknown-jump-raised'] = stats.get('unknown-jump-raised', 0) + 1
@@ -1874,6 +1895,313 @@ HASHSEEDS = [0, 4242]
 
 
 # ---------------------------------------------------------------------------------------------------------------------
+# names over the non-ASCII part of the identifier alphabet, and the SCALE axis
+#
+# The grammar takes identifiers as [A-Za-z_]\w*, and the host's \w is every alphanumeric character of Unicode: superscript and
+# subscript digits, circled / parenthesised / dingbat digits (category No: str.isdigit() is true, str.isdecimal() is false and
+# int() rejects them), numbers that are not digits at all (fractions, Roman numerals, CJK numerals: only str.isnumeric()),
+# decimal digits of other scripts (Nd: int() accepts them), ordinal indicators, modifier and title-case letters; the schema puts
+# no pattern on names at all, so letters followed by combining marks are names of hand-built models.  The classes are computed
+# from the host's own str predicates (so the tags say what the host thinks of a character, not what this file believes).
+# A name takes such a character at its END (where a 'natural order' key or a numbering scheme looks), after an ASCII digit, in a
+# run, in the middle, in front of an ASCII digit, at the start and as the whole name.
+# ---------------------------------------------------------------------------------------------------------------------
+
+UNI_CHARS = ('²³¹⁰⁴⁹'                                       # superscript digits (No, isdigit)
+             '₀₁₉'                                                         # subscript digits
+             '①②⑨⓪⓵❶➀⒈⑴፩᧚\U00010a40'   # circled / dingbat / full stop / parenthesised / Ethiopic / Tham / Kharoshthi digits
+             '⑩⑳½⅓௰㊉㊿\U00010107'                       # numbers that are no digits (No, isnumeric only)
+             'Ⅷⅷ〇〡四十亿\U00012400'                       # Roman / ideographic / Hangzhou / CJK / cuneiform numerals (Nl, Lo)
+             '٠٣٩۴०३৪๕０９\U0001d7ce\U0001d7d8\U0001d7ff߁\U0001e951'   # Nd of other scripts
+             'ªºǅʰⁿℕµſ'                           # ordinal indicators, title-case / modifier letters, look-alikes
+             'éǖṩệÅ')                                            # precomposed letters with marks, Angstrom sign
+# letters with combining marks (Mn / Me / Mc are not \w: names of hand-built models only), canonical-reordering twins, keycap, ZWJ
+UNI_MARKED = ['e\u0301', 'a\u0323\u0308', 'o\u0323\u0302', 'q\u0307\u0323', 'q\u0323\u0307', 'x\u20dd', 'n\u0303\u200d', '\u0915\u093e',
+              '\u03b1\u0345', '2\ufe0f\u20e3', 'r\u0362\u00b2']
+UNI_PLACEMENTS = [('end', 'r{c}'), ('end-after-digit', 'r2{c}'), ('run', 'r{c}{c}{d}'), ('middle', 'r{c}x'), ('before-digit', 'r{c}2'),
+                  ('start', '{c}r'), ('whole', '{c}')]
+
+
+def uni_class(unit):
+    """What the host says about the last character of the unit."""
+    import unicodedata
+    c = unit[-1]
+    flags = ('decimal' if c.isdecimal() else 'digit-not-decimal' if c.isdigit() else 'numeric-not-digit' if c.isnumeric() else
+             'alnum' if c.isalnum() else 'not-word')
+    return f'{unicodedata.category(c)}-{flags}' + ('-astral' if ord(c) > 0xffff else '') + ('-marked' if len(unit) > 1 else '')
+
+
+def unicode_names():
+    """[(placement, class, name)] - deterministic"""
+    units = list(UNI_CHARS) + UNI_MARKED
+    out = []
+    for ix, unit in enumerate(units):
+        other = UNI_CHARS[(ix + 7) % len(UNI_CHARS)]
+        for pid, form in UNI_PLACEMENTS:
+            out.append((pid, uni_class(unit), form.format(c=unit, d=other)))
+    # digit runs at the host's limits (a suffix of more digits than int() converts) and numeral look-alikes at the end of a name
+    for pid, name in (('end', 'v' + '1' * 4301), ('whole', '7' * 4400), ('end', 'v' + '٣' * 4301), ('end', 'v' + '0' * 5000 + '1'),
+                      ('end', 'v²' + '3' * 20), ('end', 'v_1_000'), ('end', 'v1e5'), ('end', 'v-1'), ('end', 'v+1'), ('end', 'v 1'),
+                      ('end', 'v1 '), ('end', 'v1_'), ('end', 'v0x1f'), ('end', 'v1.0'), ('end', 'v99999999999999999999999999'),
+                      ('end', 'v007'), ('end', 'v7'), ('end', 'v07'), ('whole', '007'), ('whole', '-0'), ('whole', '1_0'), ('whole', ' 1'),
+                      ('whole', '١٠'), ('whole', '10')):
+        out.append((pid, 'limits', name))
+    return out
+
+
+UNI_SOURCE = """{gv} = 1
+jumpif ({gr}) {gj}
+systemLog('not jumped')
+{gl}:
+function {fn}({arg}, other):
+    {fv} = {argr} + 1
+    jumpif ({fr}) {fj}
+    systemLog(other)
+    {fl}:
+    return {fr}
+endfunction
+systemLog({call}(2, 3))
+"""
+
+
+def unicode_name_cases(rng, full):
+    """(id, model): every name of unicode_names() at every name position of the small template at once, at single positions and
+    definition-use pairs (quick: a sample of those), and - where the real parser takes the name as an identifier - the same
+    program as source text parsed by parse_script."""
+    parser = fw.impl()['parser']
+    out = []
+    singles = NAME_VARIANTS[:-1]
+    for pid, cls, name in unicode_names():
+        if full:
+            variants = NAME_VARIANTS
+        else:
+            variants = [NAME_VARIANTS[-1]] + rng.sample(singles, 3 if pid == 'end' else 1)
+        for var in variants:
+            n = dict(NAME_SLOTS)
+            for k in var:
+                n[k] = name
+            out.append((f'uni:{pid}:{cls}:{"+".join(var) if len(var) < len(NAME_SLOTS) else "all"}:{name[:24]!r}', name_template(n)))
+        if len(name) < 100:
+            n = {k: name for k in NAME_SLOTS}
+            try:
+                parsed = parser.parse_script(UNI_SOURCE.format(**n))
+            except parser.BareScriptParserError:
+                continue
+            # (the parser may read an odd name as something else: only programs that really carry the name count)
+            vs, ls, _ = names_of(parsed)
+            if name in vs and name in ls:
+                out.append((f'uni:{pid}:{cls}:parsed:{name[:24]!r}', parsed))
+    return out
+
+
+# distinct names that a normalising / case-folding / numbering implementation takes for one (the runtime compares names as they are)
+UNI_TWINS = [('x\u00b2', 'x2'), ('x\uff12', 'x2'), ('x\u0662', 'x2'), ('x\U0001d7d0', 'x2'), ('x2', 'x02'), ('x2', 'x2\u200d'), ('x\u2461', 'x2'),
+             ('\u00e9', 'e\u0301'), ('q\u0307\u0323', 'q\u0323\u0307'), ('\u212b', '\u00c5'), ('\u2126', '\u03a9'), ('\u212a', 'K'), ('\u00b5', '\u03bc'),
+             ('\u00df', 'ss'), ('\u017f', 's'), ('\u01c5', '\u01c6'), ('\ufb01', 'fi'), ('\u0131', 'i'), ('\u0130', 'i\u0307'), ('\u02b0', 'h'), ('\u207f', 'n'),
+             ('\u00aa', 'a'), ('\u2167', 'VIII'), ('\u2177', '\u2167'), ('\u1e69', '\u1e61\u0323'), ('\uff58', 'x'), ('\u0445', 'x'), ('X', 'x'),
+             ('x\u00b2', 'x\u00b2\u00b2'), ('x', 'x\u0301'), ('x1', 'x\u00b9'), ('x10', 'x1\u2070')]
+TWIN_SLOT_PAIRS = [('gl', 'gj'), ('gv', 'gr'), ('fn', 'call'), ('arg', 'argr'), ('fl', 'fj'), ('fv', 'fr')]
+
+
+def twin_cases(full=False):
+    """(id, model): a pair of twin names, one at the definition and the other at the use of each kind of name of the small
+    template (all at once both ways round, singly one way round unless `full`), and both as definitions in one scope (labels, functions, parameters, variables)."""
+    out = []
+    for a, b in UNI_TWINS:
+        for way, (x, y) in enumerate(((a, b), (b, a))):
+            for pairs in ([[p] for p in TWIN_SLOT_PAIRS] if way == 0 or full else []) + [TWIN_SLOT_PAIRS]:
+                n = dict(NAME_SLOTS)
+                for d, u in pairs:
+                    n[d], n[u] = x, y
+                out.append((f'uni:twins:def-use:{"+".join(d for d, _ in pairs) if len(pairs) == 1 else "all"}:{x!r}/{y!r}', name_template(n)))
+            body = [{'label': x}, {'label': y}, _cjump(x), _cjump(y), {'expr': {'name': x, 'expr': {'number': 1.0}}},
+                    {'expr': {'name': y, 'expr': {'number': 2.0}}}, _plog({'variable': x}), _plog({'variable': y}), _cjump(x + y)]
+            fn = lambda name: {'function': {'name': name, 'args': [x, y], 'statements': fast_copy(body) + [{'return': {'expr': {  # noqa: E731
+                'binary': {'op': '+', 'left': {'variable': x}, 'right': {'variable': y}}}}}]}}
+            out.append((f'uni:twins:both-defined:all:{x!r}/{y!r}', {'statements': [fn('f' + x), fn('f' + y)] + fast_copy(body) + [
+                _plog({'function': {'name': 'f' + x, 'args': [{'number': 3.0}, {'number': 4.0}]}}), _plog({'function': {'name': 'f' + y, 'args': [{'number': 5.0}]}})]}))
+    return out
+
+
+def uni_tags(cid, model):
+    parts = cid.split(':')
+    return ['place:' + parts[1], 'class:' + parts[2], 'slot:' + ('parsed' if parts[3] == 'parsed' else 'all' if parts[3] == 'all' else 'some')]
+
+
+# ---- the SCALE axis: how many labels / jumps / variables / arguments / functions / warnings one model has ----------------
+#
+# Every generator above builds models of a few dozen statements that get a handful of warnings.  The property speaks of every
+# model: a dispatch table of 300 labels, a generated script with 128 functions, a function with 101 parameters are models like
+# any other, and 'exactly the labels / functions / arguments' holds for the 101st warning as for the first.  Each family below
+# makes ONE count the generated dimension (sizes are geometric and sit on both sides of round numbers) and ends in a fixed tail
+# whose warnings of every exact kind come LAST in lint's output (a late function with a duplicate argument, an unknown and a
+# redefined label; a redefined function; an unknown and a redefined global label), so a warning that gets lost, truncated,
+# merged or mis-attributed because of what came before it shows in the exact:* oracles.  The i-th name of a case is spelled in
+# one of NAME_STYLES (ASCII numbering, zero-padded, and numbering in the non-ASCII digit classes above).
+# ---------------------------------------------------------------------------------------------------------------------
+
+SCALE_SIZES_QUICK = [0, 1, 2, 9, 10, 11, 16, 17, 64, 65, 100, 101, 128, 129, 300]
+SCALE_SIZES_THOROUGH = SCALE_SIZES_QUICK + [255, 256, 257, 999, 1000, 1001]
+_SUPER = '⁰¹²³⁴⁵⁶⁷⁸⁹'
+_CIRCLED = '⓪①②③④⑤⑥⑦⑧⑨'
+_ARABIC = ''.join(chr(0x660 + k) for k in range(10))
+_DEVA = ''.join(chr(0x966 + k) for k in range(10))
+_FULL = ''.join(chr(0xff10 + k) for k in range(10))
+_MBOLD = ''.join(chr(0x1d7ce + k) for k in range(10))
+
+
+def _digits(i, alphabet):
+    return ''.join(alphabet[int(ch)] for ch in str(i))
+
+
+NAME_STYLES = [
+    ('ascii', lambda b, i: f'{b}{i}'),
+    ('padded', lambda b, i: f'{b}{i:04d}'),
+    ('superscript', lambda b, i: b + _digits(i, _SUPER)),
+    ('ascii+superscript', lambda b, i: f'{b}{i // 10}' + _SUPER[i % 10]),
+    ('circled', lambda b, i: b + _digits(i, _CIRCLED)),
+    ('nd-arabic-indic', lambda b, i: b + _digits(i, _ARABIC)),
+    ('nd-mixed-scripts', lambda b, i: b + ''.join((_DEVA, _FULL, _MBOLD, '0123456789')[(i + k) % 4][int(ch)] for k, ch in enumerate(str(i)))),
+    ('marked', lambda b, i: f'{b}e\u0301{i}\u0323'),
+    ('roman-fraction', lambda b, i: f'{b}{i}' + 'Ⅷ½四⑩〇'[i % 5]),
+]
+
+
+def _gc():
+    return {'variable': 'gc'}      # a global of the run that is null: the conditional jumps below are never taken
+
+
+def _cjump(label):
+    return {'jump': {'label': label, 'expr': _gc()}}
+
+
+def _plog(e):
+    return {'expr': {'expr': {'function': {'name': 'systemLog', 'args': [e]}}}}
+
+
+def scale_tail():
+    """Statements whose warnings come last: one of every exact kind, in a late function and at the end of the global scope."""
+    late = {'name': 'zzLate', 'args': ['zp', 'zq', 'zp'], 'statements': [
+        _cjump('zzNowhere'), {'label': 'zzTwice'}, {'label': 'zzTwice'}, _cjump('zzTwice'), {'return': {'expr': {'variable': 'zp'}}}]}
+    return [{'function': late}, _plog({'function': {'name': 'zzLate', 'args': [{'number': 5.0}, {'number': 6.0}]}}),
+            {'function': {'name': 'zzLate', 'args': ['zq'], 'statements': [{'return': {'expr': {'variable': 'zq'}}}]}},
+            _plog({'function': {'name': 'zzLate', 'args': [{'number': 7.0}]}}),
+            _cjump('zzNowhereG'), {'label': 'zzTwiceG'}, {'label': 'zzTwiceG'}, _cjump('zzTwiceG'), _plog({'string': 'end'})]
+
+
+def scale_body(family, n, nm):
+    """-> (statements of the scope under test, argument names if the family is about parameters)"""
+    num = lambda i: {'number': float(i % 7)}   # noqa: E731
+    if family == 'unused-labels':
+        return [{'label': nm('L', i)} for i in range(n)], None
+    if family == 'used-labels':        # no warning at all: n definitions looked up by n jumps
+        return [_cjump(nm('L', i)) for i in range(n)] + [{'label': nm('L', i)} for i in reversed(range(n))], None
+    if family == 'unknown-labels':
+        return [_cjump(nm('U', i)) for i in range(n)], None
+    if family == 'redefined-label':    # ONE label defined n + 1 times
+        return [{'label': nm('L', 0)} for _ in range(n + 1)] + [_cjump(nm('L', 0))], None
+    if family == 'redefined-labels':   # n labels defined twice each
+        return [{'label': nm('L', i)} for i in range(n)] + [_cjump(nm('L', i)) for i in range(n)] + [{'label': nm('L', i)} for i in range(n)], None
+    if family == 'pointless':
+        return [{'expr': {'expr': {'variable': nm('v', i)} if i % 2 else num(i)}} for i in range(n)], None
+    if family == 'assigned-unread':    # in a function: n unused variables
+        return [{'expr': {'name': nm('v', i), 'expr': num(i)}} for i in range(n)], None
+    if family == 'assigned-read':      # no warning: n variables, each read once
+        return ([{'expr': {'name': nm('v', i), 'expr': num(i)}} for i in range(n)] +
+                [_plog({'variable': nm('v', i)}) for i in range(0, n, max(1, n // 8))] +
+                [{'expr': {'name': 'acc', 'expr': {'binary': {'op': '+', 'left': {'variable': 'acc' if i else nm('v', 0)}, 'right': {'variable': nm('v', i)}}}}}
+                 for i in range(n)] + ([_plog({'variable': 'acc'})] if n else [])), None
+    if family == 'used-before-assigned':
+        out = []
+        for i in range(n):
+            out += [_plog({'variable': nm('v', i)})] if i % 16 == 0 else [{'expr': {'name': 'sink', 'expr': {'variable': nm('v', i)}}}]
+            out.append({'expr': {'name': nm('v', i), 'expr': num(i)}})
+        return out + ([_plog({'variable': 'sink'})] if n else []), None
+    if family == 'unused-args':
+        return [{'return': {'expr': {'number': 1.0}}}], [nm('p', i) for i in range(n)]
+    if family == 'read-args':
+        return [_plog({'variable': nm('p', i)}) for i in range(n)], [nm('p', i) for i in range(n)]
+    if family == 'duplicate-arg':      # ONE name n + 1 times
+        return [{'return': {'expr': {'variable': nm('p', 0)}}}], [nm('p', 0)] * (n + 1)
+    if family == 'duplicate-args':     # n names twice each
+        return [_plog({'variable': nm('p', i)}) for i in range(n)], [nm('p', i) for i in range(n)] * 2
+    if family == 'mixed':
+        out = []
+        for i in range(n):
+            out.append([{'label': nm('L', i)}, _cjump(nm('U', i)), {'expr': {'expr': num(i)}}, {'expr': {'name': nm('v', i), 'expr': num(i)}},
+                        {'label': nm('L', max(0, i - 4))}, _cjump(nm('L', max(0, i - 5)))][i % 6])
+        return out, None
+    raise ValueError(family)
+
+
+SCALE_FAMILIES = ['unused-labels', 'used-labels', 'unknown-labels', 'redefined-label', 'redefined-labels', 'pointless', 'assigned-unread',
+                  'assigned-read', 'used-before-assigned', 'unused-args', 'read-args', 'duplicate-arg', 'duplicate-args', 'mixed']
+SCALE_FN_FAMILIES = ['functions-unused-arg', 'functions-clean', 'redefined-function', 'redefined-functions']
+
+
+def scale_model(family, n, scope, nm):
+    if family in SCALE_FN_FAMILIES:
+        fn = lambda name, args, body: {'function': {'name': name, 'args': args, 'statements': body}}   # noqa: E731
+        ret = lambda v: [{'return': {'expr': {'variable': v}}}]   # noqa: E731
+        if family == 'functions-unused-arg':
+            stmts = [fn(nm('f', i), ['u', 'w'], ret('w')) for i in range(n)]
+        elif family == 'functions-clean':
+            stmts = [fn(nm('f', i), ['w'], ret('w')) for i in range(n)]
+        elif family == 'redefined-function':
+            stmts = [fn(nm('f', 0), ['w'], ret('w')) for _ in range(n + 1)]
+        else:
+            stmts = fast_copy([fn(nm('f', i), ['w'], ret('w')) for i in range(n)] * 2)
+        calls = [_plog({'function': {'name': nm('f', i), 'args': [{'number': 1.0}, {'number': 2.0}]}}) for i in sorted({0, n // 2, n - 1}) if 0 <= i < n]
+        return {'statements': stmts + calls + scale_tail()}
+    body, args = scale_body(family, n, nm)
+    if scope == 'top':
+        if args is not None:
+            return None
+        return {'statements': body + scale_tail()}
+    fn = {'name': 'work', 'statements': body}
+    if args:                       # (the schema wants a non-empty list: n = 0 is the function without the member)
+        fn['args'] = args
+    call = _plog({'function': {'name': 'work', 'args': [{'number': 3.0}]}})
+    if scope == 'fn':
+        return {'statements': [{'function': fn}, call] + scale_tail()}
+    # 'fn-after': the function under test comes AFTER the tail's statements (its own warnings are the late ones)
+    return {'statements': scale_tail()[:-1] + [{'function': fn}, call, _plog({'string': 'end'})]}
+
+
+def scale_cases(sizes, styles=None, rotate=0, every_scope=False):
+    """(id, model) in ascending size (the first failing case of a family is its smallest size on the axis).
+    The scope 'fn-after' is built for the sizes just above a round number only unless every_scope."""
+    out = []
+    k = rotate
+    for n in sizes:
+        for family in SCALE_FAMILIES + SCALE_FN_FAMILIES:
+            after = ('fn-after',) if every_scope or n in (0, 1, 11, 17, 65, 101, 129, 300, 1001) else ()
+            for scope in (('top', 'fn') + after if family in SCALE_FAMILIES else ('top',)):
+                chosen = styles if styles is not None else [NAME_STYLES[k % len(NAME_STYLES)]]
+                k += 1
+                for sid, style in chosen:
+                    model = scale_model(family, n, scope, style)
+                    if model is not None:
+                        out.append((f'scale:{family}:{scope}:{sid}:{n}', model))
+    return out
+
+
+def scale_tags(cid, model):
+    _, family, scope, style, n = cid.split(':')
+    return ['family:' + family, 'scope:' + scope, 'names:' + style, 'n=' + n]
+
+
+def count_statements(model):
+    return len(model['statements']) + sum(len(s['function']['statements']) for s in model['statements'] if 'function' in s)
+
+
+def run_budget(model):
+    """Statement budget of a semantic run: BUDGET, and room for one pass over every statement of a large model."""
+    n = count_statements(model)
+    return BUDGET if n <= 100 else 3 * n + 100
+
+
+# ---------------------------------------------------------------------------------------------------------------------
 # streams
 # ---------------------------------------------------------------------------------------------------------------------
 
@@ -1974,9 +2302,12 @@ def tags_of(parsed, model):
     return tags
 
 
-def run_cases(ctx, name, rule, cases, semantic_cap=8, liveness=False, reprs='rotate', extra_tags=None, nontrivial_fn=None):
+def run_cases(ctx, name, rule, cases, semantic_cap=8, liveness=False, reprs='rotate', extra_tags=None, nontrivial_fn=None, shrink=True,
+              spread=False):
     """cases: [(case id / text, model)]; liveness: non-trivial = some binding of the case is observably used;
-    reprs: host representations in which every case is linted as well ('rotate': one of REPRS per case, in turn)"""
+    reprs: host representations in which every case is linted as well ('rotate': one of REPRS per case, in turn);
+    shrink=False: witnesses are reported as found (the scale stream: cases come in ascending size, the size IS the input);
+    spread: see judge_warnings"""
     st = ctx.stream(name, rule)
     stats = {}
     models = []
@@ -2007,7 +2338,7 @@ def run_cases(ctx, name, rule, cases, semantic_cap=8, liveness=False, reprs='rot
                     return
                 ctx.witness(oracle, w['input'], w['expected'], w['actual'], stream=name, case=cid, **extra)
                 return
-            if stats.get('shrunk', 0) < 3 and isinstance(w['input'], dict) and 'model' in w['input']:
+            if shrink and stats.get('shrunk', 0) < 3 and isinstance(w['input'], dict) and 'model' in w['input']:
                 # the first witnesses of a stream are minimised (so that the replay file holds a small input)
                 stats['shrunk'] = stats.get('shrunk', 0) + 1
                 small = shrink_model(w['input']['model'], oracle, reprs=wr)
@@ -2017,8 +2348,12 @@ def run_cases(ctx, name, rule, cases, semantic_cap=8, liveness=False, reprs='rot
                     rest = {k: v for k, v in f.items() if k not in ('oracle', 'input', 'expected', 'actual')}
                     ctx.witness(oracle, f['input'], f['expected'], f['actual'], stream=name, case=cid, shrunk=True, **rest)
                     return
+            if not shrink:
+                stats['witnesses'] = stats.get('witnesses', 0) + 1
+                if stats['witnesses'] > 12:     # (large inputs: a dozen of them say it all)
+                    return
             ctx.witness(oracle, w['input'], w['expected'], w['actual'], stream=name, case=cid, **extra)
-        impl_out = check_model(model, report, stats, semantic_cap, reprs=case_reprs)
+        impl_out = check_model(model, report, stats, semantic_cap, reprs=case_reprs, spread=spread)
         model_out = resp.get('warnings', resp)
         ctx.compare(name, {'case': cid, 'model': model}, impl_out, model_out)
         parsed = parse_warnings(model, impl_out) if isinstance(impl_out, list) else []
@@ -2124,6 +2459,25 @@ def streams(ctx):
               'member names + a sample for the others, thorough = every variant for every name; non-trivial = at least one warning',
               name_sweep(rng, full=not ctx.quick))
 
+    rng = ctx.rng('lint-unicode-names')
+    run_cases(ctx, 'lint-unicode-names', 'names over the non-ASCII part of the identifier alphabet (the grammar\'s \\w is every Unicode '
+              'alphanumeric): superscript / subscript / circled / dingbat / parenthesised digits (No: str.isdigit() and not isdecimal(), '
+              'int() rejects them), numbers that are no digits (fractions, Roman, CJK, cuneiform numerals: isnumeric() only), decimal '
+              'digits of other scripts (Arabic-Indic, Devanagari, Bengali, Thai, fullwidth, mathematical, NKo, Adlam: int() accepts '
+              'them), ordinal indicators, title-case / modifier letters, precomposed letters, and - hand-built models only - letters '
+              'with combining marks (canonical-reordering twins, enclosing marks, keycap, ZWJ); each at the END of a name, after an ASCII '
+              'digit, in a run, in the middle, before an ASCII digit, at the start and as the whole name; plus digit suffixes beyond '
+              'the host\'s int-string limit and numeral look-alikes (v1e5, v_1_000, v0x1f, v 1); at every name position of the small '
+              'template at once, at single positions / definition-use pairs (quick: 1-3 sampled, thorough: all 20), and as SOURCE TEXT '
+              'through the real parse_script where the parser takes the name as an identifier (slot:parsed); class tags come from the '
+              'host\'s own str predicates; oracles as everywhere (lint-raises, lint-impure, exact:*, semantic:*, runtime:unknown-jump); '
+              'TWINS: ' + str(len(UNI_TWINS)) + ' pairs of distinct names that are equal after NFC / NFKC normalisation, case folding, digit '
+              'value or removal of default-ignorable characters (x\u00b2 / x2, fullwidth / Arabic-Indic / mathematical 2 / 2, x2 / x02, composed / '
+              'decomposed, reordered marks, Angstrom / Kelvin / Ohm / micro signs, sharp s / ss, long s / s, ligature fi, dotless i), one at '
+              'the definition and the other at the use of each kind of name (both ways round) and both defined in one scope - the '
+              'runtime keeps them apart, so must the warnings; non-trivial = at least one warning',
+              unicode_name_cases(rng, full=not ctx.quick) + twin_cases(full=not ctx.quick), extra_tags=uni_tags)
+
     rng = ctx.rng('lint-names-random')
     run_cases(ctx, 'lint-names-random', 'programs of the jump-level, data-flow and source generators with 3/4 of their names (variables, '
               'functions, parameters / labels / include urls; each name space separately, consistently and injectively) replaced by '
@@ -2135,6 +2489,23 @@ def streams(ctx):
               'bump (logs and counts), at top level and inside a function: pointless iff the tree holds no call; every reported '
               'statement is deleted and the run compared (semantic oracle); non-trivial = the expression holds a call or a warning is '
               'reported', pointless_shape_cases(ctx.scale(2, 3), 3), semantic_cap=100000)
+
+    sizes = ctx.scale(SCALE_SIZES_QUICK, SCALE_SIZES_THOROUGH)
+    run_cases(ctx, 'lint-scale', 'SCALE axis: one count n in {' + ', '.join(map(str, sizes)) + '} is the generated dimension - n unused / '
+              'used / unknown labels, one label defined n+1 times, n labels defined twice, n pointless statements, n assigned-and-unread / '
+              'assigned-and-read variables, n variables used before assignment, n unused / read parameters, one parameter n+1 times, n '
+              'parameters twice, a mix of all statement kinds (each in the global scope, in a function in front of and in a function '
+              'behind the other statements - quick: behind for n = 0, 1, 11, 17, 65, 101, 129, 300 only), n functions with / without a warning, one function defined n+1 times, n functions defined '
+              'twice; every model ends in a fixed tail whose warnings of every exact kind are the LAST of lint\'s output (late function: '
+              'duplicate argument, unknown label, redefined label; redefined function; unknown and redefined global label), so warnings '
+              'lost / truncated / merged after many others show in exact:*; the i-th name is numbered in one of ' +
+              str(len(NAME_STYLES)) + ' styles in turn (quick; thorough: sizes up to 17 in every style): ' + ', '.join(sid for sid, _ in NAME_STYLES) +
+              '; the semantic oracles take the first, last and evenly spaced warnings of each kind, runs get a statement budget of 3 x '
+              'statements + 100; cases in ascending n, witnesses are not shrunk (the smallest failing n of the axis is reported first); '
+              'non-trivial = n > 0',
+              scale_cases(sizes, rotate=ctx.rng('lint-scale').randrange(len(NAME_STYLES)), every_scope=not ctx.quick) +
+              ([] if ctx.quick else scale_cases([s for s in sizes if 2 <= s <= 17], styles=NAME_STYLES[1:])),
+              semantic_cap=ctx.scale(2, 6), extra_tags=scale_tags, nontrivial_fn=lambda m: count_statements(m) > 24, shrink=False, spread=True)
 
     # ---- optional members, removable-looking statements, shared nodes, histories ----
     covered = schema_optional_members()
@@ -2210,7 +2581,7 @@ def streams(ctx):
     run_cases(ctx, 'lint-nested', 'jump-level models in which function bodies may contain function statements (finding F19: lint does '
               'not look inside them); the model mirrors the non-descending behaviour; non-trivial = at least one warning', nested,
               semantic_cap=3)
-    for name in ('lint-shared-nodes', 'lint-noop-lookalikes', 'lint-corpus', 'lint-structured', 'lint-jump', 'lint-nested', 'lint-pointless-shapes', 'lint-flow-sites', 'lint-flow-random', 'lint-names', 'lint-names-random'):
+    for name in ('lint-shared-nodes', 'lint-noop-lookalikes', 'lint-corpus', 'lint-structured', 'lint-jump', 'lint-nested', 'lint-pointless-shapes', 'lint-flow-sites', 'lint-flow-random', 'lint-names', 'lint-names-random', 'lint-unicode-names', 'lint-scale'):
         ctx.streams[name].exhaustive = False
 
 
@@ -2340,6 +2711,14 @@ def search(ctx):
         if not (extra.get('nested') and F19(dict(extra, input=input_, expected=expected, actual=actual, oracle=oracle))):
             ctx.witness(oracle, jsonable(input_), jsonable(expected), jsonable(actual), stream='search', **extra)
     for _, model in corpus_models():
+        check_model(model, report, stats)
+    for _, model in scale_cases(SCALE_SIZES_QUICK[:4] + SCALE_SIZES_THOROUGH[4:]) + unicode_name_cases(rng, full=False):
+        if len(ctx.witnesses) >= 5:
+            return
+        check_model(model, report, stats, semantic_cap=3, spread=True)
+    for _, model in twin_cases():
+        if len(ctx.witnesses) >= 5:
+            return
         check_model(model, report, stats)
     parser = fw.impl()['parser']
     for _, model in optional_member_cases() + [(c, parser.parse_script(t)) for c, t in noop_lookalike_cases()]:
